@@ -470,4 +470,29 @@ Section C02Model.
     let '(dx, dy, dz) := d in
     let '(ax, ay, az) := a in let '(bx, by_, bz) := b in let '(cx, cy, cz) := c in
     (dx - (sx * ax + sy * bx + sz * cx), dy - (sx * ay + sy * by_ + sz * cy), dz - (sx * az + sy * bz + sz * cz)).
+  (* the pair lists of selfCoordNum / group2CenterOnly as state over steps and runs (same rebuild rule) *)
+  Definition pts_full (r0 : T) (r0v : option V3) (en ed : Z) (tol : T) (cell : option V3) (pts : list (V3 * V3)) : T :=
+    lsum (fun pr => switching r0 r0v en ed tol cell (fst pr) (snd pr)) pts.
+  Definition pl_step_pts (freq : Z) (r0 : T) (r0v : option V3) (en ed : Z) (tol : T) (cell : option V3)
+             (st : list bool) (rel : Z) (pts : list (V3 * V3)) : list bool * T :=
+    if Z.eqb (Z.modulo rel freq) 0
+    then (pl_build_pts r0 r0v en ed tol cell pts, pts_full r0 r0v en ed tol cell pts)
+    else (st, pl_value_pts st r0 r0v en ed tol cell pts).
+  Fixpoint pl_run_pts (freq : Z) (r0 : T) (r0v : option V3) (en ed : Z) (tol : T) (cell : option V3)
+           (st : list bool) (rel : Z) (frames : list (list (V3 * V3))) : list T * list bool :=
+    match frames with
+    | [] => ([], st)
+    | fr :: rest =>
+      let '(st1, v) := pl_step_pts freq r0 r0v en ed tol cell st rel fr in
+      let '(vs, st2) := pl_run_pts freq r0 r0v en ed tol cell st1 (Z.succ rel) rest in
+      (v :: vs, st2)
+    end.
+  Fixpoint pl_session_pts (freq : Z) (r0 : T) (r0v : option V3) (en ed : Z) (tol : T) (cell : option V3)
+           (st : list bool) (runs : list (list (list (V3 * V3)))) : list (list T) :=
+    match runs with
+    | [] => []
+    | run :: rest =>
+      let '(vs, st1) := pl_run_pts freq r0 r0v en ed tol cell st 0%Z run in
+      vs :: pl_session_pts freq r0 r0v en ed tol cell st1 rest
+    end.
 End C02Model.
